@@ -6,6 +6,7 @@
 //	def actionBody<N> : String    the N-th action block, verbatim (N = order of appearance in the
 //	                              file = pointlander's numbering ruleAction<N>)
 //	def actions : List String
+//	def actionSums : List Nat     FNV-1a/64 of each whitespace-normalised body
 //	def actionPegGo<N> : String   the body of `case ruleAction<N>:` in Execute() of jsonpath.peg.go, verbatim
 //	def actionsPegGo : List String
 //	def rulesPegGo : List String  the rule names of the `rul3s` table of jsonpath.peg.go (without
@@ -22,6 +23,7 @@ import (
 	"go/ast"
 	"go/parser"
 	"go/token"
+	"hash/fnv"
 	"os"
 	"path/filepath"
 	"strconv"
@@ -819,6 +821,21 @@ func genGrammar(repo, out string) (err error) {
 		b.WriteString("]\n\n")
 	}
 	list(`actionBody`, `actions`, rd.actions)
+	// FNV-1a (64 bit) of every whitespace-normalised body: comparing long strings by `decide` is far too
+	// slow in Lean's kernel, comparing these numbers is instantaneous (Peg/ActionText.lean: expectedSums)
+	b.WriteString("def actionSums : List Nat := [")
+	for i, s := range rd.actions {
+		if i > 0 {
+			b.WriteString(`, `)
+		}
+		if i%4 == 0 {
+			b.WriteString("\n  ")
+		}
+		h := fnv.New64a()
+		h.Write([]byte(normWS(s)))
+		fmt.Fprintf(&b, "%d", h.Sum64())
+	}
+	b.WriteString("]\n\n")
 	list(`actionPegGo`, `actionsPegGo`, goActions)
 	b.WriteString("def rulesPegGo : List String := [")
 	for i, s := range goRules {
